@@ -758,6 +758,9 @@ func c14Cycles() []c14Scenario {
 		p := kinds[k]
 		out = append(out, c14Scenario{"augment-target-" + k, hdr + body + fmt.Sprintf(`augment "/%s" { leaf added { type string; } } }`, p), nil})
 		out = append(out, c14Scenario{"augment-case-into-" + k, hdr + body + fmt.Sprintf(`augment "/%s" { case added { leaf al { type string; } } } }`, p), nil})
+		out = append(out, c14Scenario{"augment-action-into-" + k, `module cy { yang-version 1.1; namespace "urn:cy"; prefix cy; revision 0; ` + body + fmt.Sprintf(`augment "/%s" { action act { input { leaf i { type string; } } } } }`, p), nil})
+		out = append(out, c14Scenario{"augment-notification-into-" + k, `module cy { yang-version 1.1; namespace "urn:cy"; prefix cy; revision 0; ` + body + fmt.Sprintf(`augment "/%s" { notification nn { leaf e { type string; } } } }`, p), nil})
+		out = append(out, c14Scenario{"augment-container-list-choice-into-" + k, hdr + body + fmt.Sprintf(`augment "/%s" { container ac { } list al { key k; leaf k { type string; } } choice ach { leaf s { type string; } } leaf-list all { type string; } anydata ad; uses ag; } grouping ag { leaf agl { type string; } } }`, p), nil})
 		for _, dv := range []string{"not-supported;", `add { units "u"; }`, `add { default "d"; }`, `add { must "x"; }`, `add { unique "k"; }`, `replace { type int32; }`, `replace { config false; }`, `replace { mandatory true; }`, `replace { max-elements 3; }`, `delete { units "u"; }`, `delete { default "d"; }`, `add { min-elements 1; }`} {
 			out = append(out, c14Scenario{"deviation-" + strings.Fields(dv)[0] + "-" + strings.Trim(strings.Fields(dv + " x x")[2], ";{}") + "-on-" + k, hdr + body + fmt.Sprintf(`deviation "/%s" { deviate %s } }`, p, dv), nil})
 		}
@@ -785,6 +788,8 @@ func c14Cycles() []c14Scenario {
 		{"include-a-module", `module main { namespace "urn:main"; prefix m; include s0; revision 0; }`, memOpener(map[string]string{"s0": `module s0 { namespace "urn:s0"; prefix s; revision 0; leaf y { type string; } }`})},
 		{"import-a-submodule", `module main { namespace "urn:main"; prefix m; import s0 { prefix s; } revision 0; }`, memOpener(map[string]string{"s0": `submodule s0 { belongs-to main { prefix m; } leaf y { type string; } }`})},
 		{"import-wrong-name", `module main { namespace "urn:main"; prefix m; import s0 { prefix s; } revision 0; }`, memOpener(map[string]string{"s0": `module other { namespace "urn:o"; prefix o; revision 0; }`})},
+		{"import-file-declares-another-module-that-imports-the-file", `module main { namespace "urn:main"; prefix m; import b { prefix b; } revision 0; }`, memOpener(map[string]string{"b": `module c { namespace "urn:c"; prefix c; import b { prefix b; } revision 0; }`})},
+		{"import-file-declares-another-module", `module main { namespace "urn:main"; prefix m; import b { prefix b; } revision 0; leaf x { type b:t; } }`, memOpener(map[string]string{"b": `module c { namespace "urn:c"; prefix c; revision 0; typedef t { type string; } }`})},
 		{"import-self", `module main { namespace "urn:main"; prefix m; import main { prefix mm; } revision 0; }`, memOpener(map[string]string{"main": `module main { namespace "urn:main"; prefix m; import main { prefix mm; } revision 0; }`})},
 		{"include-self", `module main { namespace "urn:main"; prefix m; include main; revision 0; }`, memOpener(map[string]string{"main": `module main { namespace "urn:main"; prefix m; include main; revision 0; }`})},
 		{"empty-text", ``, nil},
@@ -929,6 +934,11 @@ func (p *c14) Run(raw json.RawMessage) eng.Result {
 			}
 			for _, s := range c14Subst {
 				muts["substitute:"+s] = text[:t.start] + s + text[t.end:]
+			}
+			// a whole simple statement (keyword argument ;) said twice
+			if ti+2 < len(toks) && text[toks[ti+2].start:toks[ti+2].end] == ";" {
+				stmt := text[t.start:toks[ti+2].end]
+				muts["duplicate-statement"] = text[:toks[ti+2].end] + " " + stmt + text[toks[ti+2].end:]
 			}
 			var ks []string
 			for k := range muts {
